@@ -1,6 +1,8 @@
 /- Driver ops for Game2048.  Ops: game2048.state, game2048.step, game2048.judge, game2048.row -/
 import JumanjiModel.Bridge.Json
 import JumanjiModel.Env.Game2048.Model
+import JumanjiModel.Env.Game2048.Bounds
+import JumanjiModel.Bridge.PuzzleBounds
 open Lean Jb
 
 namespace Jb.Game2048
@@ -86,7 +88,13 @@ def opRow : Op := fun j => do
                            ("can_move", jBool (decide (slideSpec r ≠ r)))]),
               ("tile_sum", jNats [tileSum r, tileSum (slideSpec r)])])
 
+/-- {"cfg": {"n"}} → the proved interval of every observation leaf (C01) -/
+def opBounds : Op := fun j => do
+  let cfg ← field j "cfg"
+  let n ← fNat cfg "n"
+  pure (jBoundsTable (obsBounds n))
+
 def ops : List (String × Op) :=
   [("game2048.step", opStep), ("game2048.state", opState), ("game2048.judge", opJudge),
-   ("game2048.row", opRow)]
+   ("game2048.row", opRow), ("game2048.bounds", opBounds)]
 end Jb.Game2048
